@@ -23,8 +23,15 @@
      (PluralRules, key = rule type): an association list.
    * `scope.placeables` is a `u8`: `+= 1` goes through `u8_add1`, which panics at 2^8-1 when
      `overflow_checks` (debug build) and wraps otherwise (release).
-   * `travelled` holds `&Pattern`; `contains` compares the pointees with the derived PartialEq,
-     i.e. structurally (`pattern_mem`).  Head of the list = top of the stack.
+   * `travelled` holds `&Pattern` and Scope::track looks for the SAME OBJECT (`std::ptr::eq`, since the
+     fix of D31; before, the derived structural PartialEq).  The identity of a pattern object of the
+     bundle is its place, `pkey` = (term?, entry id, attribute): lookups are first-match, so one
+     key is one AST node and distinct keys are distinct nodes even when their text is equal.
+     `travelled : list (option pkey)`: `Some k` = the bundle's pattern object k; `None` = an object
+     that is not one of the bundle's entry patterns (a foreign top-level pattern, a variant
+     pattern) — never identical to a pattern that track looks up.  Every function that handles a
+     pattern object carries its identity (`k`) next to its content (`p`); the entry points take the
+     identity of the caller's pattern (`top`).  Head of the list = top of the stack.
    * all recursion between the Rust functions is one mutual Fixpoint on `fuel`; every call
      spends one unit, so fuel bounds the call depth.  `fuel_of` is the fuel given by the entry
      points; C06_total shows it is never exhausted.
@@ -135,6 +142,35 @@ Definition fuel_step (b : bundle) : nat := 2 + list_max (map lw_pattern (bundle_
 Definition fuel_of (b : bundle) (p : pattern) : nat :=
   1 + lw_pattern p + length (bundle_patterns b) * fuel_step b.
 
+(* ---------- identity of the bundle's pattern objects ---------- *)
+Inductive pkey := PKey (is_term : bool) (id : bytes) (attribute : option bytes).
+
+Definition obytes_eqb (a c : option bytes) : bool :=
+  match a, c with
+  | None, None => true
+  | Some x, Some y => bytes_eqb x y
+  | _, _ => false
+  end.
+Definition pkey_eqb (a c : pkey) : bool :=
+  match a, c with
+  | PKey t1 i1 a1, PKey t2 i2 a2 => Bool.eqb t1 t2 && bytes_eqb i1 i2 && obytes_eqb a1 a2
+  end.
+(* `self.travelled.iter().any(|p| std::ptr::eq( *p, pattern))` for the bundle's object k *)
+Definition key_mem (k : pkey) (l : list (option pkey)) : bool :=
+  existsb (fun x => match x with Some k' => pkey_eqb k' k | None => false end) l.
+
+(* the keys of every pattern object reachable through a reference, in the order of bundle_patterns *)
+Definition entry_keys (id : bytes) (e : bentry) : list pkey :=
+  match e with
+  | EMessage v attrs =>
+      (match v with Some _ => [PKey false id None] | None => [] end) ++
+      map (fun a => PKey false id (Some (attr_id a))) attrs
+  | ETerm _ attrs => PKey true id None :: map (fun a => PKey true id (Some (attr_id a))) attrs
+  | EFunction _ => []
+  end.
+Definition bundle_keys (b : bundle) : list pkey :=
+  flat_map (fun kv => entry_keys (fst kv) (snd kv)) (b_entries b).
+
 (* ---------- Scope (scope.rs) ---------- *)
 Definition rules_fn := operands -> pcat.
 Definition intl_cache := list (ntype * rules_fn).
@@ -144,7 +180,7 @@ Record call_record := Call { call_id : bytes; call_positional : list fvalue; cal
 Record scope := Scope {
   sc_placeables : N;                       (* u8 *)
   sc_dirty : bool;
-  sc_travelled : list pattern;
+  sc_travelled : list (option pkey);
   sc_local_args : option fargs;
   sc_errors : list resolver_error;         (* errors: Some(&mut Vec), push = append *)
   sc_calls : list call_record;             (* ghost: function invocations, oldest first *)
@@ -157,7 +193,7 @@ Definition set_placeables (sc : scope) (n : N) : scope :=
   Scope n (sc_dirty sc) (sc_travelled sc) (sc_local_args sc) (sc_errors sc) (sc_calls sc) (sc_intls sc).
 Definition set_dirty (sc : scope) (d : bool) : scope :=
   Scope (sc_placeables sc) d (sc_travelled sc) (sc_local_args sc) (sc_errors sc) (sc_calls sc) (sc_intls sc).
-Definition set_travelled (sc : scope) (t : list pattern) : scope :=
+Definition set_travelled (sc : scope) (t : list (option pkey)) : scope :=
   Scope (sc_placeables sc) (sc_dirty sc) t (sc_local_args sc) (sc_errors sc) (sc_calls sc) (sc_intls sc).
 Definition set_local_args (sc : scope) (a : option fargs) : scope :=
   Scope (sc_placeables sc) (sc_dirty sc) (sc_travelled sc) a (sc_errors sc) (sc_calls sc) (sc_intls sc).
@@ -398,14 +434,14 @@ Definition resolve_named (rs : inline -> scope -> outcome (fvalue * scope))
         Done ((name, v) :: vs, sc)
     end.
 
-Fixpoint pattern_write (fuel : nat) (p : pattern) (sc : scope) {struct fuel} : result :=
-  (* pattern.rs Pattern::write *)
+Fixpoint pattern_write (fuel : nat) (k : option pkey) (p : pattern) (sc : scope) {struct fuel} : result :=
+  (* pattern.rs Pattern::write   (k = which object `self` is) *)
   match fuel with
   | O => OutOfFuel
-  | S f => pattern_loop (maybe_track f p) (length (pattern_elements p)) (pattern_elements p) sc
+  | S f => pattern_loop (maybe_track f k p) (length (pattern_elements p)) (pattern_elements p) sc
   end
 
-with pattern_resolve (fuel : nat) (p : pattern) (sc : scope) {struct fuel} : outcome (fvalue * scope) :=
+with pattern_resolve (fuel : nat) (k : option pkey) (p : pattern) (sc : scope) {struct fuel} : outcome (fvalue * scope) :=
   (* pattern.rs Pattern::resolve *)
   match fuel with
   | O => OutOfFuel
@@ -413,7 +449,7 @@ with pattern_resolve (fuel : nat) (p : pattern) (sc : scope) {struct fuel} : out
       match pattern_elements p with
       | [TextElement value] => Done (VString (apply_transform value), sc)
       | _ =>
-          let* (o, sc) := pattern_write f p sc in
+          let* (o, sc) := pattern_write f k p sc in
           Done (VString (flatten o), sc)
       end
   end
@@ -433,10 +469,10 @@ with expression_write (fuel : nat) (e : expression) (sc : scope) {struct fuel} :
             | _ => Done (None, sc)
             end in
           match hit with
-          | Some value => pattern_write f value sc
+          | Some value => pattern_write f None value sc
           | None =>
               match find_default variants with
-              | Some value => pattern_write f value sc
+              | Some value => pattern_write f None value sc
               | None => Done ([], add_error sc MissingDefault)
               end
           end
@@ -456,12 +492,12 @@ with inline_write (fuel : nat) (i : inline) (sc : scope) {struct fuel} : result 
               match attribute with
               | Some attr =>
                   match find_attribute attributes attr with
-                  | Some v => track f v i sc
+                  | Some v => track f (PKey false id (Some attr)) v i sc
                   | None => write_ref_error i sc
                   end
               | None =>
                   match value with
-                  | Some v => track f v i sc
+                  | Some v => track f (PKey false id None) v i sc
                   | None => Done (braced (inline_write_error i), add_error sc (NoValue id))
                   end
               end
@@ -478,10 +514,10 @@ with inline_write (fuel : nat) (i : inline) (sc : scope) {struct fuel} : result 
                 match attribute with
                 | Some attr =>
                     match find_attribute attributes attr with
-                    | Some v => track f v i sc
+                    | Some v => track f (PKey true id (Some attr)) v i sc
                     | None => write_ref_error i sc
                     end
-                | None => track f value i sc
+                | None => track f (PKey true id None) value i sc
                 end
             | None => write_ref_error i sc
             end in
@@ -563,27 +599,27 @@ with inline_resolve (fuel : nat) (i : inline) (sc : scope) {struct fuel} : outco
       end
   end
 
-with maybe_track (fuel : nat) (p : pattern) (e : expression) (sc : scope) {struct fuel} : result :=
+with maybe_track (fuel : nat) (k : option pkey) (p : pattern) (e : expression) (sc : scope) {struct fuel} : result :=
   (* scope.rs Scope::maybe_track *)
   match fuel with
   | O => OutOfFuel
   | S f =>
-      let sc := match sc_travelled sc with [] => set_travelled sc [p] | _ => sc end in
+      let sc := match sc_travelled sc with [] => set_travelled sc [k] | _ => sc end in
       let* (o, sc) := expression_write f e sc in
       if sc_dirty sc then Done (o ++ braced (expression_write_error e), sc)
       else Done (o, sc)
   end
 
-with track (fuel : nat) (p : pattern) (exp : inline) (sc : scope) {struct fuel} : result :=
+with track (fuel : nat) (k : pkey) (p : pattern) (exp : inline) (sc : scope) {struct fuel} : result :=
   (* scope.rs Scope::track *)
   match fuel with
   | O => OutOfFuel
   | S f =>
-      if pattern_mem p (sc_travelled sc)
+      if key_mem k (sc_travelled sc)
       then Done (braced (inline_write_error exp), add_error sc Cyclic)
       else
-        let sc := set_travelled sc (p :: sc_travelled sc) in
-        let* (o, sc) := pattern_write f p sc in
+        let sc := set_travelled sc (Some k :: sc_travelled sc) in
+        let* (o, sc) := pattern_write f (Some k) p sc in
         Done (o, set_travelled sc (tl (sc_travelled sc)))
   end
 
@@ -605,12 +641,12 @@ with get_arguments (fuel : nat) (arguments : option call_args) (sc : scope) {str
 
 (* bundle.rs FluentBundle::write_pattern — returns the tokens written and the final scope
    (errors = sc_errors, function invocations = sc_calls, memoizer afterwards = sc_intls) *)
-Definition write_pattern (fuel : nat) (pattern : pattern) (intls : intl_cache) : result :=
-  pattern_write fuel pattern (scope_new intls).
+Definition write_pattern (fuel : nat) (top : option pkey) (pattern : pattern) (intls : intl_cache) : result :=
+  pattern_write fuel top pattern (scope_new intls).
 
 (* bundle.rs FluentBundle::format_pattern *)
-Definition format_pattern (fuel : nat) (pattern : pattern) (intls : intl_cache) : outcome (bytes * scope) :=
-  let* (value, sc) := pattern_resolve (S fuel) pattern (scope_new intls) in
+Definition format_pattern (fuel : nat) (top : option pkey) (pattern : pattern) (intls : intl_cache) : outcome (bytes * scope) :=
+  let* (value, sc) := pattern_resolve (S fuel) top pattern (scope_new intls) in
   (* match pattern.resolve(..) { FluentValue::String(text) => text, value => value.into_string(&scope) } *)
   Done (match value with VString text => text | _ => value_into_string value end, sc).
 
